@@ -35,6 +35,7 @@ package main
 
 import (
 	"fmt"
+	"os"
 	"path/filepath"
 	"sort"
 	"strconv"
@@ -46,6 +47,7 @@ import (
 	"github.com/xuperchain/xupercore/bcs/ledger/xledger/state/utxo"
 	pb "github.com/xuperchain/xupercore/bcs/ledger/xledger/xldgpb"
 	"github.com/xuperchain/xupercore/protos"
+	"xv/lockproto"
 	"xv/xvlib"
 )
 
@@ -130,6 +132,7 @@ type thr struct {
 	done  bool
 	label string // where it is paused
 	succ  []*utxo.LockKey
+	rel   []*utxo.LockKey // what the protocol's Unlock releases
 	ok    bool
 	res   byte // 'r' running, 'a', 's', 'f'
 	// oracle state
@@ -152,6 +155,9 @@ type logEntry struct {
 }
 
 type viol struct{ key, what string }
+
+// proto: doTxSync's lock protocol, extracted from $XV_REPO's state.go at start-up
+var proto = lockproto.Expected
 
 type execution struct {
 	sp      *utxo.SpinLock
@@ -283,6 +289,11 @@ func (e *execution) publish(t *thr) {
 	e.mu.Unlock()
 }
 
+// body is doTxSync's lock protocol AS EXTRACTED from state.go (package lockproto): TryLock on the
+// extracted keys; what the (deferred) Unlock releases; whether a failed TryLock returns before the
+// critical section. With the protocol of the unchanged tree this is
+//
+//	succ, ok := TryLock(keys); defer Unlock(succ); if !ok { return }; cs.check; cs.apply; cs.publish
 func (e *execution) body(t *thr) {
 	defer func() {
 		ev := event{t: t.id, done: true}
@@ -293,27 +304,48 @@ func (e *execution) body(t *thr) {
 	}()
 	<-t.goCh
 	t.succ, t.ok = e.sp.TryLock(t.def.keys)
-	if t.ok {
-		e.enterCS(t)
-		pass := e.check(t)
-		if pass {
-			e.pause(t, "c+")
-			e.apply(t)
-			e.pause(t, "a")
-			e.publish(t)
-			e.pause(t, "p")
-		} else {
-			e.pause(t, "c-")
-		}
-		e.exitCS(t)
-	} else {
+	switch proto.UnlockWhat {
+	case "succ":
+		t.rel = t.succ
+	case "requested":
+		t.rel = t.def.keys
+	default:
+		t.rel = nil
+	}
+	unlock := func() {
+		t.inUnlock = true
+		e.sp.Unlock(t.rel)
+	}
+	if !proto.UnlockDeferred {
+		unlock() // a plain statement: the locks are gone before the critical section
+	}
+	if !t.ok {
 		t.res = 'f'
-		if len(t.succ) > 0 {
-			e.pause(t, "f")
+		if proto.GuardBeforeCritical {
+			if proto.UnlockDeferred && proto.UnlockOnFailPath {
+				if len(t.rel) > 0 {
+					e.pause(t, "f")
+				}
+				unlock()
+			}
+			return
 		}
 	}
-	t.inUnlock = true
-	e.sp.Unlock(t.succ)
+	e.enterCS(t)
+	pass := e.check(t)
+	if pass {
+		e.pause(t, "c+")
+		e.apply(t)
+		e.pause(t, "a")
+		e.publish(t)
+		e.pause(t, "p")
+	} else {
+		e.pause(t, "c-")
+	}
+	e.exitCS(t)
+	if proto.UnlockDeferred {
+		unlock()
+	}
 }
 
 func newExecution(defs []*threadDef) *execution {
@@ -402,7 +434,7 @@ func (e *execution) alive() []int {
 // thread-local work left; scheduling it first loses no behaviour (sound reduction of the enumeration).
 func (e *execution) choices() []int {
 	for _, t := range e.thr {
-		if !t.done && t.inUnlock && t.label == "D" && t.unlockYield >= len(t.succ) {
+		if !t.done && t.inUnlock && t.label == "D" && t.unlockYield >= len(t.rel) {
 			return []int{t.id}
 		}
 	}
@@ -765,6 +797,18 @@ func main() {
 	out := xvlib.NewOut(args.Out)
 	defer out.Close()
 	h := &harness{out: out}
+	repo := os.Getenv("XV_REPO")
+	if repo == "" {
+		repo = "/repo"
+	}
+	if f, err := lockproto.Extract(repo); err != nil {
+		out.Stats.Notes = append(out.Stats.Notes, "doTxSync lock protocol could not be extracted from "+repo+": "+err.Error()+"; the harness threads follow the expected protocol")
+	} else {
+		proto = f
+		if f != lockproto.Expected {
+			out.Stats.Notes = append(out.Stats.Notes, fmt.Sprintf("doTxSync's lock protocol in %s differs from the modelled one: %+v (expected %+v); the harness threads follow the extracted protocol", lockproto.File, f, lockproto.Expected))
+		}
+	}
 	if args.Replay != "" {
 		for _, l := range xvlib.ReadLines(args.Replay) {
 			out.Emit(l, h.execLine(l))
